@@ -286,6 +286,10 @@ class J1939_21:
         pgn = data[5] | (data[6] << 8) | (data[7] << 16)
 
         src_address = mid.source_address
+        if src_address == ParameterGroupNumber.Address.GLOBAL:
+            # 255 is not a valid source address: such a frame must neither be answered nor be
+            # matched with one of our own broadcast sessions (which are keyed with 255 as peer)
+            return
 
         if control_byte == self.ConnectionMode.RTS:
             message_size = data[1] | (data[2] << 8)
